@@ -8,8 +8,8 @@
       [c_get_text] (chardet), and the translators' translation functions [t_fun].
     Constants come from DV.Generated.T_extract (regenerated from the source on every run). *)
 From Coq Require Import Strings.String Strings.Ascii.
-From Coq Require Import List Bool NArith ZArith Lia.
-From DV Require Import Common.Res Common.Str Generated.T_extract.
+From Coq Require Import List Bool NArith ZArith QArith_base Lia.
+From DV Require Import Common.Res Common.Str Common.PyNum Generated.T_extract.
 Import ListNotations.
 Local Open Scope N_scope.
 
@@ -107,14 +107,15 @@ Record einfo := mk_einfo {
   e_vr : str;
   e_vm : nat;             (* elem.VM as pydicom computes it *)
   e_keyword : str;        (* pydicom.datadict.keyword_for_tag(tag), "" if none *)
-  e_name : str            (* elem.name *)
+  e_name : str;           (* elem.name *)
+  e_raw : option str      (* the text a single DS / IS value was made from (value.original_string), when it has one *)
 }.
 
 Inductive val :=
 | VNone
 | VStr (c : strcls) (s : str)
 | VInt (c : intcls) (z : Z)
-| VNum (c : numcls) (tok : str)            (* tok = repr of the float *)
+| VNum (c : numcls) (v : fval) (tok : str)  (* a float: its exact value and its repr *)
 | VBytes (b : list N)
 | VMulti (c : listcls) (l : list val)
 | VSeq (items : list (list (einfo * val)))  (* input only: a pydicom Sequence of Datasets *)
@@ -192,13 +193,13 @@ Definition int_float_tok (z : Z) : option str :=
     (for example [float] of a text value); the generators never produce those. *)
 Definition conv_apply (gt : list N -> option str) (c : converter) (v : val) : res val :=
   match c, v with
-  | CvFloat, VNum _ tok => Ok (VNum CFloat tok)
-  | CvFloat, VInt _ z => match int_float_tok z with Some t => Ok (VNum CFloat t) | None => Err ECrash end
+  | CvFloat, VNum _ v tok => Ok (VNum CFloat v tok)
+  | CvFloat, VInt _ z => match int_float_tok z with Some t => Ok (VNum CFloat (FFin (QArith_base.inject_Z z)) t) | None => Err ECrash end
   | CvInt, VInt _ z => Ok (VInt CInt z)
   | CvStr, VStr _ s => Ok (VStr CStr s)
   | CvStr, VInt CTag z => Ok (VStr CStr (tag_paren z))
   | CvStr, VInt CInt z => Ok (VStr CStr (decZ z))
-  | CvStr, VNum CFloat tok => Ok (VStr CStr tok)
+  | CvStr, VNum CFloat _ tok => Ok (VStr CStr tok)
   | CvText, VBytes b => Ok (match gt b with Some s => VStr CStr s | None => VNone end)
   | _, _ => Err ECrash
   end.
@@ -405,7 +406,7 @@ Fixpoint val_eqb (a b : val) {struct a} : bool :=
   | VNone, VNone => true
   | VStr c s, VStr c' s' => strcls_eqb c c' && str_eqb s s'
   | VInt c z, VInt c' z' => intcls_eqb c c' && Z.eqb z z'
-  | VNum c t, VNum c' t' => numcls_eqb c c' && str_eqb t t'
+  | VNum c v t, VNum c' v' t' => numcls_eqb c c' && fval_eqb v v' && str_eqb t t'
   | VBytes x, VBytes y => str_eqb x y
   | VMulti c xs, VMulti c' ys =>
       listcls_eqb c c' &&
